@@ -17,6 +17,13 @@
 //!  3. LONG `extend` / `collect` (100 .. 300 colours at once; `c18.rs` hands over at most 8 at a time), through exact and inexact size hints,
 //!     followed by a drain of a long window, on every configuration.
 //!
+//!  4. THE PROVIDED ITERATOR METHODS (`nth`, `nth_back`, `skip`, `step_by`, `last`, `count`, `fold`, `rfold`, `position`, `zip`, `rev().nth`, ..): std derives them
+//!     from `next` / `next_back` unless the implementation overrides one; `c18.rs` calls `next`, `next_back`, `len`, `size_hint`, `count` only.  Every iterator
+//!     the collections hand out (`iter`, `iter_mut`, `into_iter` of `&` / `&mut` / owned, `get(range)` / `get_mut(range)`, `drain(range)`; fresh and partially
+//!     consumed) goes through 34 adapters, and so does the same iterator of `Vec<Color>`: `provided-methods:<form>:<cfg>` (same observations, exactly) and
+//!     `provided-methods-left-behind:<form>:<cfg>` (same collection afterwards, equal component lengths); all 26 types x {plain, Alpha}, and `drain` of
+//!     the mixed-alpha collections.
+//!
 //! No clause demands more than `c18.rs` does: each is the comparison with `Vec<Color>` subjected to the same history, tolerance 0.
 #![allow(unused_mut, unused_assignments, unused_variables)]
 use crate::c18::*;
@@ -56,7 +63,7 @@ fn more_cfgs() -> Vec<(&'static str, Vec<Cfg>)> {
 /// what the interpreter below returns: the observations (reads through `cloned()` / `as_refs()`), the component lengths, and every
 /// disagreement between an uncovered read path and the covered one (`copied()`): (operation index, path, detail)
 pub struct PTrace { pub tr: Trace, pub bad: Vec<(usize, &'static str, String)> }
-pub struct PCfg { pub cfg: Cfg, pub run_paths: fn(&[Op]) -> PTrace }
+pub struct PCfg { pub cfg: Cfg, pub run_paths: fn(&[Op]) -> PTrace, pub run_provided: fn(&mut Out, &mut Rng, usize, &str) }
 
 fn agree<X: PartialEq + std::fmt::Debug>(bad: &mut Vec<(usize, &'static str, String)>, ix: usize, path: &'static str, covered: &X, x: &X) {
     if covered != x { bad.push((ix, path, format!("{:?} but the covered read path (copied()) gives {:?}", x, covered))); }
@@ -173,6 +180,141 @@ macro_rules! interp_paths {
     };
 }
 
+
+// ------------------------------------------------------------------------------------------------ 4. the PROVIDED iterator methods
+// `Iterator` / `DoubleEndedIterator` have ~70 provided methods (`nth`, `nth_back`, `skip`, `step_by`, `last`, `count`, `fold`, `rfold`, `position`, `zip`, ..)
+// that std derives from `next` / `next_back` -- unless the implementation OVERRIDES one.  `c18.rs` drives `next`, `next_back`, `len`, `size_hint`, `count` only,
+// so an override (say an `nth` that advances the columns by different amounts) was executed by nothing.  Here every iterator the collections hand out
+// (`iter()`, `iter_mut()`, `into_iter()` of `&`, `&mut` and the owned collection, `get(range)` / `get_mut(range)` `.into_iter()`, `drain(range)`), fresh or partially
+// consumed, is put through the adapters below, and the SAME adapter is applied to the same iterator of the reference `Vec<Color>`: the two observation sequences
+// must be equal, and so must the collections left behind (the property's own predicate: same items, same order forwards and backwards, same lengths, same
+// removed items; tolerance 0).  The helper is generic over std's iterator traits only; the palette types are instantiated concretely by `provided_cfg!`.
+#[derive(Clone, Debug, PartialEq)]
+pub enum PO<R> { It(Option<R>), Num(Option<usize>) }
+pub const N_ADAPT: usize = 34;
+/// adapter number `which` applied to `it` after `pre.0` calls of `next()` and `pre.1` calls of `next_back()`; -> (adapter name, everything observed, in order)
+pub fn provided_one<X, R: PartialEq + Clone, It: DoubleEndedIterator<Item = X> + ExactSizeIterator>(mut it: It, which: usize, pre: (usize, usize), k: usize, s: usize,
+        target: Option<&R>, refs: &[R], rd: &dyn Fn(X) -> R) -> (&'static str, Vec<PO<R>>) {
+    let mut o: Vec<PO<R>> = vec![];
+    for _ in 0..pre.0 { o.push(PO::It(it.next().map(rd))); }
+    for _ in 0..pre.1 { o.push(PO::It(it.next_back().map(rd))); }
+    // everything an iterator still yields, then the `None` that ends it
+    macro_rules! all { ($i:expr) => {{ for x in $i { o.push(PO::It(Some(rd(x)))); } o.push(PO::It(None)); }} }
+    // the length an (exact size) iterator reports, then everything it still yields
+    macro_rules! rest { ($i:expr) => {{ o.push(PO::Num(Some($i.len()))); let (lo, hi) = $i.size_hint(); o.push(PO::Num(Some(lo))); o.push(PO::Num(hi)); all!($i) }} }
+    let is_t = |r: &R| Some(r) == target;
+    let name = match which {
+        0 => { let a = it.nth(k).map(rd); o.push(PO::It(a)); rest!(it); "nth(k);rest" }
+        1 => { let a = it.nth_back(k).map(rd); o.push(PO::It(a)); rest!(it); "nth_back(k);rest" }
+        2 => { all!(it.skip(k)); "skip(k)" }
+        3 => { all!(it.step_by(s)); "step_by(s)" }
+        4 => { o.push(PO::It(it.last().map(rd))); "last()" }
+        5 => { o.push(PO::Num(Some(it.count()))); "count()" }
+        6 => { let n = it.fold(0usize, |n, x| { o.push(PO::It(Some(rd(x)))); n + 1 }); o.push(PO::Num(Some(n))); "fold" }
+        7 => { let mut r = it.rev(); let a = r.nth(k).map(rd); o.push(PO::It(a)); rest!(r); "rev().nth(k);rest" }
+        8 => { all!(it.rev().skip(k)); "rev().skip(k)" }
+        9 => { all!(it.take(k)); "take(k)" }
+        10 => { all!(it.skip(k).rev()); "skip(k).rev()" }
+        11 => { let p = it.position(|x| is_t(&rd(x))); o.push(PO::Num(p)); rest!(it); "position(item k);rest" }
+        12 => { for (x, r) in it.zip(refs.iter()) { o.push(PO::It(Some(rd(x)))); o.push(PO::It(Some(r.clone()))); } o.push(PO::It(None)); "zip(reference)" }
+        13 => { let a = it.nth(k).map(rd); o.push(PO::It(a)); let a = it.nth(k).map(rd); o.push(PO::It(a)); rest!(it); "nth(k);nth(k);rest" }
+        14 => { all!(it.step_by(s).rev()); "step_by(s).rev()" }
+        15 => { all!(it.skip(k).step_by(s)); "skip(k).step_by(s)" }
+        16 => { let n = it.rfold(0usize, |n, x| { o.push(PO::It(Some(rd(x)))); n + 1 }); o.push(PO::Num(Some(n))); "rfold" }
+        17 => { let p = it.rposition(|x| is_t(&rd(x))); o.push(PO::Num(p)); rest!(it); "rposition(item k);rest" }
+        18 => { let b = it.all(|x| !is_t(&rd(x))); o.push(PO::Num(Some(b as usize))); rest!(it); "all(!= item k);rest" }
+        19 => { all!(it.rev().step_by(s)); "rev().step_by(s)" }
+        20 => { all!(it.take(k).rev()); "take(k).rev()" }
+        21 => { o.push(PO::It(it.rev().last().map(rd))); "rev().last()" }
+        22 => { let a = it.nth_back(k).map(rd); o.push(PO::It(a)); let a = it.nth(k).map(rd); o.push(PO::It(a)); rest!(it); "nth_back(k);nth(k);rest" }
+        23 => { let mut t = it.step_by(s); let a = t.nth(k).map(rd); o.push(PO::It(a)); all!(t); "step_by(s).nth(k);rest" }
+        24 => { let mut t = it.skip(k); let a = t.nth_back(s).map(rd); o.push(PO::It(a)); rest!(t); "skip(k).nth_back(s);rest" }
+        25 => { for (r, x) in refs.iter().zip(it).rev() { o.push(PO::It(Some(rd(x)))); o.push(PO::It(Some(r.clone()))); } o.push(PO::It(None)); "reference.zip(..).rev()" }
+        26 => { for (i, x) in it.enumerate().skip(k) { o.push(PO::Num(Some(i))); o.push(PO::It(Some(rd(x)))); } o.push(PO::It(None)); "enumerate().skip(k)" }
+        27 => { let mut t = it.fuse(); let a = t.nth(k).map(rd); o.push(PO::It(a)); all!(t); "fuse().nth(k);rest" }
+        28 => { let a = it.nth(k).map(rd); o.push(PO::It(a)); o.push(PO::Num(Some(it.count()))); "nth(k);count()" }
+        29 => { { let t = it.by_ref().take(k); all!(t); } rest!(it); "by_ref().take(k);rest" }
+        30 => { let a = it.nth(k).map(rd); o.push(PO::It(a)); drop(it); "nth(k);drop" }
+        31 => { let a = it.nth_back(k).map(rd); o.push(PO::It(a)); drop(it); "nth_back(k);drop" }
+        32 => { let mut t = it.peekable(); let a = t.nth(k).map(rd); o.push(PO::It(a)); all!(t); "peekable().nth(k);rest" }
+        _ => { let a = it.by_ref().skip(k).next().map(rd); o.push(PO::It(a)); let b = it.by_ref().rev().skip(s).next().map(rd); o.push(PO::It(b)); rest!(it); "by_ref().skip(k).next();by_ref().rev().skip(s).next();rest" }
+    };
+    (name, o)
+}
+
+/// one form: the adapter on the collection's iterator and on the vector's, then the two collections left behind (`row_of`, `col_lens`, `I` of the calling module)
+macro_rules! provided_form { ($out:expr, $tag:expr, $v:expr, $items:expr, $refs:expr, $n:expr, $k:expr, $s:expr, $pre:expr, $w:expr, $target:expr,
+                              $form:expr, $win:expr, |$c:ident| $soa:expr, $rdx:expr, |$ic:ident| $vec:expr, $rdv:expr) => {{
+    let (mut $c, mut $ic) = ($v.clone(), $items.clone());
+    let (n, k, s, pre, w) = ($n, $k, $s, $pre, $w);
+    let win: (usize, usize) = $win;
+    let wrefs = &$refs[win.0..win.1];
+    let wt = if $form.starts_with("drain") || $form.starts_with("get") { wrefs.get(k) } else { $target };
+    let (name, got) = provided_one($soa, w, pre, k, s, wt, wrefs, &$rdx);
+    let (_, want) = provided_one($vec, w, pre, k, s, wt, wrefs, &$rdv);
+    $out.check(got == want, &format!("provided-methods:{}:{}", $form, $tag), || format!("{} colours {:?} (rows of component bit patterns), window {}..{}, k = {}, s = {}, after {} next() and {} next_back(): `{}` on the struct-of-arrays collection's iterator observes {:?} but on Vec<Color>'s iterator {:?}", n, $refs, win.0, win.1, k, s, pre.0, pre.1, name, got, want));
+    let left: Vec<Row> = $c.iter().map(|x| row_of(&x.copied())).collect();
+    let vleft: Vec<Row> = $ic.iter().map(row_of).collect();
+    let lens = col_lens(&$c);
+    $out.check(left == vleft && lens.iter().all(|&l| l == vleft.len()), &format!("provided-methods-left-behind:{}:{}", $form, $tag), || format!("{} colours {:?}, window {}..{}, k = {}, s = {}, after {} next() and {} next_back(): after `{}` the struct-of-arrays collection holds {:?} (component lengths {:?}) but Vec<Color> holds {:?}", n, $refs, win.0, win.1, k, s, pre.0, pre.1, name, left, lens, vleft));
+}} }
+
+/// The provided methods on one configuration.  Expects in scope: types `V`, `I`; const `K`; fns `mk`, `row_of`, `col_lens` (as `interp_paths!`).
+macro_rules! provided_cfg {
+    () => {
+        pub fn run_provided(out: &mut Out, rng: &mut Rng, rounds: usize, tag: &str) {
+            for round in 0..rounds {
+                let n = match round % 6 { 0 => 3, 1 => 0, 2 => 1, 3 => 2, 4 => 6, _ => rng.below(13) as usize };
+                let rows = long_rows(<T as Comp>::TAG, K, n, rng.below(1000));
+                let items: Vec<I> = rows.iter().map(mk).collect();
+                let refs: Vec<Row> = items.iter().map(row_of).collect();
+                let v: V = items.iter().cloned().collect();
+                let (k, s) = (if round % 3 == 0 { 1 } else { rng.below(n as u64 + 2) as usize }, 1 + rng.below(3) as usize);
+                let pre = match rng.below(5) { 0 | 1 | 2 => (0, 0), 3 => (1, 0), _ => (1, 1) };
+                let a = rng.below(n as u64 + 1) as usize; let b = a + rng.below((n - a) as u64 + 1) as usize;
+                let target = refs.get(k);
+                for w in 0..N_ADAPT {
+                    provided_form!(out, tag, v, items, refs, n, k, s, pre, w, target, "iter", (0, n), |c| c.iter(), |x| row_of(&x.copied()), |ic| ic.iter(), |x: &I| row_of(x));
+                    provided_form!(out, tag, v, items, refs, n, k, s, pre, w, target, "iter_mut", (0, n), |c| c.iter_mut(), |x| row_of(&x.cloned()), |ic| ic.iter_mut(), |x: &mut I| row_of(x));
+                    provided_form!(out, tag, v, items, refs, n, k, s, pre, w, target, "ref.into_iter", (0, n), |c| (&c).into_iter(), |x| row_of(&x.cloned()), |ic| (&ic).into_iter(), |x: &I| row_of(x));
+                    provided_form!(out, tag, v, items, refs, n, k, s, pre, w, target, "mut.into_iter", (0, n), |c| (&mut c).into_iter(), |x| row_of(&x.as_refs().copied()), |ic| (&mut ic).into_iter(), |x: &mut I| row_of(x));
+                    provided_form!(out, tag, v, items, refs, n, k, s, pre, w, target, "owned.into_iter", (0, n), |c| c.clone().into_iter(), |x| row_of(&x), |ic| ic.clone().into_iter(), |x: I| row_of(&x));
+                    provided_form!(out, tag, v, items, refs, n, k, s, pre, w, target, "drain(a..b)", (a, b), |c| c.drain(a..b), |x| row_of(&x), |ic| ic.drain(a..b), |x: I| row_of(&x));
+                    provided_form!(out, tag, v, items, refs, n, k, s, pre, w, target, "drain(..)", (0, n), |c| c.drain(..), |x| row_of(&x), |ic| ic.drain(..), |x: I| row_of(&x));
+                    provided_form!(out, tag, v, items, refs, n, k, s, pre, w, target, "get(a..b).into_iter", (a, b), |c| c.get(a..b).unwrap().into_iter(), |x| row_of(&x.copied()), |ic| ic[a..b].iter(), |x: &I| row_of(x));
+                    provided_form!(out, tag, v, items, refs, n, k, s, pre, w, target, "get_mut(a..b).into_iter", (a, b), |c| c.get_mut(a..b).unwrap().into_iter(), |x| row_of(&x.as_refs().cloned()), |ic| ic[a..b].iter_mut(), |x: &mut I| row_of(x));
+                }
+                out.count("cls:more:provided-methods");
+            }
+        }
+    };
+}
+
+/// `drain(range)` of a collection whose alpha column has another component type (the only iterator that form hands out: the `IntoIterator` impls want one type)
+macro_rules! mixed_alpha_provided { ($out:expr, $rng:expr, $n:expr, $name:expr, $soa:ty, $item:ty, $mk:expr) => {{
+    let mk: fn(f32, u8) -> $item = $mk;
+    for round in 0..$n {
+        let n = match round % 4 { 0 => 3, 1 => 1, _ => $rng.below(9) as usize };
+        let items: Vec<$item> = (0..n).map(|i| mk(i as f32 * 0.5 + $rng.below(7) as f32, (i * 16 + $rng.below(16) as usize) as u8)).collect();
+        let refs: Vec<String> = items.iter().map(|x| format!("{:?}", x)).collect();
+        let v: $soa = items.iter().cloned().collect();
+        let (k, s) = (if round % 3 == 0 { 1 } else { $rng.below(n as u64 + 2) as usize }, 1 + $rng.below(3) as usize);
+        let pre = match $rng.below(4) { 0 | 1 => (0, 0), 2 => (1, 0), _ => (1, 1) };
+        let a = $rng.below(n as u64 + 1) as usize; let b = a + $rng.below((n - a) as u64 + 1) as usize;
+        for w in 0..N_ADAPT {
+            let (mut c, mut ic) = (v.clone(), items.clone());
+            let wrefs = &refs[a..b];
+            let (name, got) = provided_one(c.drain(a..b), w, pre, k, s, wrefs.get(k), wrefs, &|x| format!("{:?}", x));
+            let (_, want) = provided_one(ic.drain(a..b), w, pre, k, s, wrefs.get(k), wrefs, &|x: $item| format!("{:?}", x));
+            $out.check(got == want, &format!("provided-methods:drain(a..b):mixed-alpha:{}", $name), || format!("{} colours {:?}, window {}..{}, k = {}, s = {}, after {} next() and {} next_back(): `{}` on the struct-of-arrays collection's drain observes {:?} but on Vec<Color>'s {:?}", n, refs, a, b, k, s, pre.0, pre.1, name, got, want));
+            let left: Vec<String> = (0..n + 1).map(|i| format!("{:?}", c.get(i).map(|x| x.cloned()))).collect();
+            let vleft: Vec<String> = (0..n + 1).map(|i| format!("{:?}", ic.get(i))).collect();
+            $out.check(left == vleft, &format!("provided-methods-left-behind:drain(a..b):mixed-alpha:{}", $name), || format!("{} colours {:?}, window {}..{}, k = {}, s = {}: after `{}` on the drain the struct-of-arrays collection holds {:?} but Vec<Color> holds {:?}", n, refs, a, b, k, s, name, left, vleft));
+        }
+        $out.count("cls:more:provided-methods:mixed-alpha");
+    }
+}} }
+
 /// One colour type (same argument grammar as `soa_type!`): the `plain` and `alpha` interpreters of the read paths.
 macro_rules! paths_type {
     ($m:ident, $name:literal, $t:ty, $C:ident < $($P:ty),* >, hue [$($H:ident)?], elems [$($e:ident),+], phantom [$($ph:ident)?]) => {
@@ -196,6 +338,7 @@ macro_rules! paths_type {
                 fn row_of(c: &I) -> Row { let mut r = vec![]; row_c(c, &mut r); r }
                 fn col_lens(v: &V) -> Vec<usize> { let mut r = vec![]; lens_c(v, &mut r); r }
                 interp_paths!();
+                provided_cfg!();
             }
             // ---- the hue column read and written on its own (`v.hue.iter()`, `.get(i)`, ... of hues.rs), on every form
             type CB = $C<$($P,)* Box<[T]>>;
@@ -309,10 +452,11 @@ macro_rules! paths_type {
                 fn row_of(c: &I) -> Row { let mut r = vec![]; row_c(&c.color, &mut r); r.push(c.alpha.tb()); r }
                 fn col_lens(v: &V) -> Vec<usize> { let mut r = vec![]; lens_c(&v.color, &mut r); r.push(v.alpha.len()); r }
                 interp_paths!();
+                provided_cfg!();
             }
             pub fn cfgs() -> Vec<PCfg> { vec![
-                PCfg { cfg: Cfg { name: $name, ty: <T as Comp>::TAG, hue: HUE, nelem: NE, alpha: false, run_soa: plain::run_soa, run_vec: plain::run_vec }, run_paths: plain::run_paths },
-                PCfg { cfg: Cfg { name: $name, ty: <T as Comp>::TAG, hue: HUE, nelem: NE, alpha: true, run_soa: alpha::run_soa, run_vec: alpha::run_vec }, run_paths: alpha::run_paths } ] }
+                PCfg { cfg: Cfg { name: $name, ty: <T as Comp>::TAG, hue: HUE, nelem: NE, alpha: false, run_soa: plain::run_soa, run_vec: plain::run_vec }, run_paths: plain::run_paths, run_provided: plain::run_provided },
+                PCfg { cfg: Cfg { name: $name, ty: <T as Comp>::TAG, hue: HUE, nelem: NE, alpha: true, run_soa: alpha::run_soa, run_vec: alpha::run_vec }, run_paths: alpha::run_paths, run_provided: alpha::run_provided } ] }
         }
     };
 }
@@ -476,5 +620,16 @@ pub fn run_more(out: &mut Out, rng: &mut Rng, thorough: bool, dir: &str, n_shrun
         let n = if thorough { 5000 } else { 300 };
         mixed_alpha_reads!(out, rng, n, "Hsv<f32>+u8", Alpha<Hsv<Srgb, Vec<f32>>, Vec<u8>>, Alpha<Hsv<Srgb, f32>, u8>, |x, a| Alpha { color: Hsv::new_srgb(x * 10.0, x, x + 0.5), alpha: a });
         mixed_alpha_reads!(out, rng, n, "Lab<f32>+u8", Alpha<Lab<D65, Vec<f32>>, Vec<u8>>, Alpha<Lab<D65, f32>, u8>, |x, a| Alpha { color: Lab::new(x, x + 0.25, x - 0.5), alpha: a });
+    }
+    // 4. the provided iterator methods (`nth`, `nth_back`, `skip`, `step_by`, `last`, `fold`, `position`, `zip`, ..) of every iterator handed out, every type x {plain, Alpha},
+    //    and `drain` of the mixed-alpha collections.  Last, so that the streams above are unchanged.
+    for pc in &pcs {
+        out.count(&format!("cls:more:provided-methods:{}{}", if pc.cfg.hue { "hue" } else { "nohue" }, if pc.cfg.alpha { "+alpha" } else { "" }));
+        (pc.run_provided)(out, rng, if thorough { 400 } else { 18 }, &pc.cfg.tag());
+    }
+    {
+        let n = if thorough { 2000 } else { 60 };
+        mixed_alpha_provided!(out, rng, n, "Hsv<f32>+u8", Alpha<Hsv<Srgb, Vec<f32>>, Vec<u8>>, Alpha<Hsv<Srgb, f32>, u8>, |x, a| Alpha { color: Hsv::new_srgb(x * 10.0, x, x + 0.5), alpha: a });
+        mixed_alpha_provided!(out, rng, n, "Lab<f32>+u8", Alpha<Lab<D65, Vec<f32>>, Vec<u8>>, Alpha<Lab<D65, f32>, u8>, |x, a| Alpha { color: Lab::new(x, x + 0.25, x - 0.5), alpha: a });
     }
 }
